@@ -120,12 +120,41 @@ def gen_scenario(seed, i):
     return sc, {"timed_nid": "a1" if timed_kind == "act" else "s1", "rules": [[on, secs] for on, secs in picks], "tsteps": tsteps}
 
 
+def revival_scenario(seed, i):
+    """the timed task is revived by its own catch before the limit: the rule still counts from the moment the task was opened"""
+    rng = Rng(seed * 49979687 + i)
+    on, secs = rng.pick([("2s", 2), ("3s", 3), ("5s", 5)])
+    tsteps = {"ts0": on}
+    rule = {"on": on, "steps": [{"id": "ts0", "acts": [{"id": "ts0a", "uses": gen.MSG, "key": "kts0"}]}]}
+    catch = {"on": "e1", "steps": [{"id": "cx", "acts": [{"id": "cxa", "uses": gen.IRQ, "key": "kcxa"}]}]}
+    timed_step = rng.chance(1, 2)
+    a0 = {"id": "a0", "uses": gen.IRQ, "key": "k0"}
+    s1 = {"id": "s1", "acts": [a0]}
+    if timed_step:
+        s1["timeout"], s1["catches"] = [rule], [catch]
+    else:
+        # a container act that is timed and catches the error of its child
+        s1["acts"] = [{"id": "blk", "uses": "acts.core.block", "params": {"mode": "sequence", "acts": [a0]}, "timeout": [rule], "catches": [catch]}]
+    w = {"id": "mt", "steps": [s1, {"id": "s2", "acts": [{"id": "a2", "uses": gen.IRQ, "key": "k2"}]}]}
+    before = rng.pick([500, 1000, 1500])
+    ops = [["deploy", 0], ["clock", rng.below(1000)], ["start", "mt", {"pid": "p1"}], ["runall"],
+           ["tick", before], ["runall"],
+           ["act", "error", "p1", {"nid": "a0", "k": 0}, {"ecode": "e1", "message": "x"}], ["runall"],
+           ["tick", secs * 1000 - before - 1], ["runall"], ["tick", 1], ["runall"], ["tick", 1000], ["runall"],
+           ["tick", before], ["runall"], ["tick", 60_000], ["runall"]]
+    sc = {"id": f"tm-rev-{seed}-{i}", "config": {"keep": True}, "models": [w], "ops": ops}
+    return sc, {"timed_nid": "s1" if timed_step else "blk", "rules": [[on, secs]], "tsteps": tsteps}
+
+
 def run(ctx):
     ctx.check_theorems("ActsModel.Props.C19")
     n = 200 if ctx.tier == "quick" else 5000
     base, base_metas = [], []
     for i in range(n):
-        if i % 5 == 4:
+        if i % 10 == 3:
+            sc, meta = revival_scenario(ctx.seed, i)
+            ms = [meta]
+        elif i % 5 == 4:
             sc, ms = gen_both(ctx.seed, i)
         else:
             sc, meta = gen_scenario(ctx.seed, i)
@@ -172,11 +201,14 @@ def run(ctx):
                 for o in st2["obs"]:
                     if o.get("k") == "new" and o.get("pid") == "p1" and o.get("nid") == meta["timed_nid"]:
                         timed_tids.add(o.get("tid"))
+            # (the state the timed task is left in by the operation counts: a catch of its own may take an error and revive it at once)
+            last_state = None
             for o in st["obs"]:
-                if (o.get("k") == "tr" and o.get("pid") == "p1" and not closed and o.get("tid") in timed_tids
-                        and o.get("new") in ("completed", "skipped", "submitted", "aborted", "error", "removed", "backed", "cancelled")):
-                    closed = True
-                    events.append((i, ["close"]))
+                if o.get("k") == "tr" and o.get("pid") == "p1" and o.get("tid") in timed_tids:
+                    last_state = o.get("new")
+            if not closed and last_state in ("completed", "skipped", "submitted", "aborted", "error", "removed", "backed", "cancelled"):
+                closed = True
+                events.append((i, ["close"]))
         evmaps.append(events)
         reqs.append({"cmd": "c19.run", "rules": meta["rules"], "start": start if start is not None else CLOCK0, "events": [e for _, e in events]})
     answers = ctx.driver(reqs)
